@@ -227,3 +227,36 @@ Theorem c02_exact_on_one_cte_partial : forall noise e s,
   script_pairs e false [] [r_stmt noise s] = spec_pairs (e_cfg e) s.
 Proof. exact lemma_B_one_cte. Qed.
 Print Assumptions c02_exact_on_one_cte_partial.
+
+(** * Expression items: functions, arithmetic, CASE, CAST, window functions, nested to any depth
+    ([Tree/RenderExpr.v]: the parser's layout of the expression forms, validated against the real parser on every run -
+    suite T3-render-expr; [Tree/ExprItem.v], [Tree/LemmaBExpr.v], [Tree/LemmaBExpr2.v]). *)
+From SV Require Import Tree.RenderExpr Tree.ExprItem Tree.LemmaBExpr Tree.LemmaBExpr2.
+
+(** one select item: an aliased expression of ANY depth yields the column named by the alias whose sources are exactly the
+    column references of the expression ([ops_srcs]: the model's list, with its order and duplicates; as a set = [col_refs]) *)
+Theorem c02_expression_item_sources : forall noise e f ex a,
+  noise_ok noise = true -> env_ok e = true -> expr_ok ex = true -> id_ok a = true -> expr_fuel ex <= f ->
+  column_of_seg (S f) e (r_item_x noise (IExpr ex (Some a))) = Ok (mk_xcol a (ops_srcs ex) true).
+Proof. exact column_of_seg_expr_exact. Qed.
+Print Assumptions c02_expression_item_sources.
+
+Theorem c02_expression_sources_are_its_column_references : forall ex x,
+  In x (ops_srcs ex) <-> In x (map swap_ref (col_refs ex)).
+Proof. exact ops_srcs_set. Qed.
+Print Assumptions c02_expression_sources_are_its_column_references.
+
+(** whole pipeline: INSERT (no column list) / CTAS / VIEW over one SELECT from base tables whose items are stars, column
+    references or ALIASED expressions: the end-to-end column pairs are the specified ones, for any trivia, any number of
+    tables and items, expressions of any depth.  Partial: INSERT with an explicit column list and expression items is
+    tested (lemma_Bx_tests) but not proved ([lemma_Bx_cols_statement] is only type-checked). *)
+Theorem c02_exact_on_single_select_with_expressions_partial : forall noise e s,
+  noise_ok noise = true -> env_ok e = true -> stmt_ok_x s = true -> colshape s = true -> no_cols s = true ->
+  script_pairs e false [] [r_stmt_x noise s] = spec_pairs (e_cfg e) s.
+Proof. exact lemma_Bx_partial. Qed.
+Print Assumptions c02_exact_on_single_select_with_expressions_partial.
+
+(** without [colshape] it is false (a qualified and an unqualified reference to the same name in one expression) *)
+Theorem c02_expressions_unguarded_refuted : ~ lemma_Bx_unguarded.
+Proof. exact lemma_Bx_unguarded_refuted. Qed.
+Print Assumptions c02_expressions_unguarded_refuted.
